@@ -24,6 +24,8 @@ pub mod parser;
 pub mod program;
 pub mod span;
 pub mod token;
+#[cfg(rsjsonnet_verif)]
+pub mod verif;
 
 type FHashMap<K, V> = std::collections::HashMap<K, V, foldhash::fast::RandomState>;
 type FHashSet<T> = std::collections::HashSet<T, foldhash::fast::RandomState>;
